@@ -244,3 +244,65 @@ rewrite select_by_rg_spec. split; intros (k & g & H1 & H2 & H3); exists k, g; re
 - apply sample_groups_spec. now rewrite Eg.
 - rewrite <- Eg. now apply sample_groups_spec.
 Qed.
+
+(* --- restricted genotypes *)
+Lemma realign_all_r_none R reference overhang variants cig query ys :
+  realign_all_r R reference overhang variants None cig query ys = realign_all R reference overhang variants cig query ys.
+Proof.
+induction ys as [|[[[j i] c] qp] ys IH]; [reflexivity|].
+cbn [realign_all_r realign_all restriction_of]. destruct (nth_error variants j); [|reflexivity].
+cbn [realign_restricted]. rewrite IH. reflexivity.
+Qed.
+
+Lemma alignments_to_reads_r_none R reference overhang variants alns :
+  alignments_to_reads_r R reference overhang variants None alns = alignments_to_reads R reference overhang variants alns.
+Proof.
+induction alns as [|a r IH]; [reflexivity|]. cbn [alignments_to_reads_r alignments_to_reads]. rewrite IH.
+assert (H : detect_one_r R reference overhang variants None a = detect_one R reference overhang variants a).
+{ unfold detect_one_r, detect_one, detect_by_alignment_r, detect_by_alignment. destruct reference; [|reflexivity].
+  destruct (a_cigar a); [reflexivity|]. now rewrite realign_all_r_none. }
+now rewrite H.
+Qed.
+
+(* without restriction (every caller except haplotagphase) the restricted functions are the unrestricted ones *)
+Theorem read_set_r_none R reference overhang mapq use_supp dup threshold variants alns :
+  read_set_r R reference overhang mapq use_supp dup threshold variants None alns
+  = read_set R reference overhang mapq use_supp dup threshold variants alns.
+Proof. unfold read_set_r, read_set. now rewrite alignments_to_reads_r_none. Qed.
+
+(* under the hypotheses of realign_correct, a restriction to any genotype that contains the carried allele still
+   yields the carried allele (and a genotype consisting of the carried allele alone yields it as well) *)
+Theorem realign_restricted_correct :
+  forall (R : rules) (reference query : list Z) (overhang : nat) (v : variant) (cig : cigar)
+         (i consumed qpos : nat) (op : cop) (len : nat) (pre LM V RM post : list cop)
+         (r1 WL WR r2 q1 q2 : list Z) (carried : nat) (g : list nat),
+  0 < overhang -> positive_lengths cig ->
+  nth_error cig i = Some (op, len) -> consumed <= len ->
+  firstn (unit_index cig i consumed) (expand cig) = pre ++ LM ->
+  skipn (unit_index cig i consumed) (expand cig) = V ++ RM ++ post ->
+  forallb is_match LM = true -> forallb is_match RM = true -> forallb is_aligned V = true ->
+  carried <= 1 ->
+  ref_units V = length (vref v) -> query_units V = length (get_allele v carried) ->
+  (overhang <= length LM \/ window_end R (rev pre)) ->
+  (overhang <= length RM \/ window_end R post) ->
+  reference = r1 ++ WL ++ vref v ++ WR ++ r2 -> vpos v = length r1 + length WL ->
+  query = q1 ++ WL ++ get_allele v carried ++ WR ++ q2 ->
+  length WL = length LM -> length WR = length RM ->
+  length q1 = query_units pre -> qpos = query_units (pre ++ LM) ->
+  vref v <> valt v -> is_symbolic v = false ->
+  In carried g ->
+  realign_restricted R reference overhang v cig query i consumed qpos (Some g) = Some (Some carried).
+Proof.
+intros R reference query overhang v cig i consumed qpos op len pre LM V RM post r1 WL WR r2 q1 q2 carried g
+       Hov Hpos Hnth Hcons Hleft Hright HLM HRM HV Hc HVr HVq Hle Hre Href Hvp Hq HWL HWR Hq1 Hqpos Hd Hs Hin.
+pose proof (realign_correct R reference query overhang v cig i consumed qpos op len pre LM V RM post r1 WL WR r2 q1 q2
+              carried Hov Hpos Hnth Hcons Hleft Hright HLM HRM HV Hc HVr HVq Hle Hre Href Hvp Hq HWL HWR Hq1 Hqpos Hd Hs) as Hr.
+unfold realign in Hr. rewrite Hs in Hr. unfold realign_restricted. rewrite Hs.
+destruct g as [|g0 g']; [contradiction|].
+destruct (windows R reference overhang v cig query i consumed qpos) as [[[q pref] palt]|]; [|discriminate].
+assert (Hex : existsb (Nat.eqb carried) (g0 :: g') = true).
+{ apply existsb_exists. exists carried. split; [exact Hin|apply Nat.eqb_refl]. }
+destruct carried as [|[|c]]; [| |lia]; rewrite Hex.
+- destruct (existsb (Nat.eqb 1) (g0 :: g')); [exact Hr|reflexivity].
+- destruct (existsb (Nat.eqb 0) (g0 :: g')); [exact Hr|reflexivity].
+Qed.
